@@ -227,6 +227,20 @@ def input_direction(ctx, res):
             docs.append((base_i + 3 * k + ["-i", "stdin", "two -i"].index(mode_name), v, NoEscape(r.getrandbits(32))))
             k += 1
 
+    # wide containers (element / key counts round the usual powers of two and beyond) and combinations of width and depth
+    for width in ([126, 127, 128, 129, 200, 255, 256, 257, 1000] + ([4096, 65536] if ctx["tier"] != "quick" else [])):
+        for shape in range(4):
+            if shape == 0:
+                v = [Raw(str(j)) for j in range(width)]
+            elif shape == 1:
+                v = ("obj", [(f"k{j}", Raw(str(j))) for j in range(width)])
+            elif shape == 2:
+                v = [[Raw(str(j))] for j in range(width)]
+            else:
+                v = ("obj", [("a", [("obj", [("b", [Raw(str(j)) for j in range(width)])])])])
+            docs.append((base_i + 3 * k + (k % 3), v, NoEscape(r.getrandbits(32))))
+            k += 1
+
     def one(item):
         i, v, rr = item
         text_v = emit(v, rr)
